@@ -64,6 +64,11 @@ Calls(cls, b) ==
   \cup (IF cls \in DiagSet THEN { <<"first", f, 0>> : f \in {"abs", "exp", "log", "sqrt"} } ELSE {})
   \cup (IF cls \in {"Tri", "KronTri"} THEN { <<"first", "linalg_solve_triangular", v>> : v \in {1, 2} } ELSE {})
   \cup { <<"unregistered", f, 0>> : f \in {"trace", "det", "tril", "cumsum", "flip", "mean", "relu"} }
+  \* one-sided functions (registered for the operator as FIRST operand only) called with the operator second: not in SpecSecond, so the
+  \* dispatcher has to refuse - never answer with the operands swapped
+  \cup { <<"second_refused", f, 0>> : f \in {"torch.div", "torch.linalg.solve", "Tensor.div"} }
+  \* isclose with equal_nan: X = A with one entry replaced by NaN on both sides
+  \cup { <<"first", "isclose_nan", 0>> }
 
 Init ==
   /\ \E c \in 1..Len(Cls), bi \in 1..Len(Batches) :
@@ -111,6 +116,8 @@ Eval(c) ==
     [] k = "second" /\ f \in {"torch.mul", "Tensor.mul"} /\ v = 3 -> [arg |-> BcT, expect |-> T_Mul(BcT, A)]
     [] k = "second" /\ f \in {"torch.mul", "Tensor.mul"} -> [arg |-> T_Scalar(3), expect |-> T_Scale(A, 3)]
     [] k = "second" /\ f \in {"torch.matmul", "Tensor.matmul"} -> LET X == IF v = 1 THEN LMatT ELSE VecT IN [arg |-> X, expect |-> T_MatMulAny(X, A)]
+    [] f = "isclose_nan" -> [arg |-> A, expect |-> T_Ones(A.shape)]
+    [] k = "second_refused" -> [arg |-> SameT, expect |-> R]
     [] f \in {"isclose", "torch.isclose"} -> [arg |-> [shape |-> A.shape, data |-> [i \in 1..Len(A.data) |-> 4 * A.data[i] + 1], den |-> 4],
                                                expect |-> T_Ones(A.shape)]
     [] f = "diagonal" -> [arg |-> None, expect |-> T_Diagonal(A)]
